@@ -427,6 +427,8 @@ func suiteTtml(R *runner, r *rng) {
 	for k, v := range ttFreedoms {
 		R.countN("ttml.freedom."+k, v)
 	}
+	R.countN("ttml.read.start_tags_with_a_line_break_inside", xmlLineBreakInTag)
+	xmlLineBreakInTag = 0
 	ttFreedoms = map[string]int{}
 	// crafted documents (regressions of what the checks found, one concern each)
 	for _, cd := range ttCorpus {
@@ -909,6 +911,13 @@ var ttCorpus = []ttCorpusDoc{
 		return ""
 	}},
 	{"closed_references_needed: p naming an undefined style", `<tt><body><div><p begin="1s" end="2s" style="z">x</p></div></body></tt>`, nil},
+	{"a start tag inside a paragraph written over several lines", ttWrap("", "<p begin=\"1s\" end=\"2s\"><span\n tts:color=\"red\"\n\ttts:fontStyle='italic'\n>Hi</span\n><br\n/>x</p>"), func(v tvDoc) string {
+		l := v.Items[0].Lines
+		if len(l) != 2 || len(l[0]) != 1 || l[0][0].Text != "Hi" || l[0][0].A.S[1] == nil || *l[0][0].A.S[1] != "red" || l[1][0].Text != "x" {
+			return "lines " + showLines(l)
+		}
+		return ""
+	}},
 	{"p without begin", ttWrap("", `<p end="2s">x</p>`), nil},
 	{"unknown style", ttWrap("", `<p begin="1s" end="2s" style="nope">x</p>`), nil},
 	{"unknown parent", ttWrap(`<head><styling><style xml:id="a" style="nope"/></styling></head>`, `<p begin="1s" end="2s">x</p>`), nil},
